@@ -254,7 +254,13 @@ def run(case, ctx):
         caught = []
         try:
             with warnings.catch_warnings(record=True) as caught:
-                warnings.simplefilter("always")
+                if case["seed"] % 4:
+                    warnings.simplefilter("always")
+                else:
+                    # the interpreter's stock filters (and whatever
+                    # importing the library did to them): a truncation
+                    # warning is a RuntimeWarning, shown by default
+                    ctx.hit("stock_warning_filters")
                 res = do(op, v, views, mcm)
             exc = None
         except Exception as e:
